@@ -1547,10 +1547,17 @@ impl Relation {
                 } else {
                     0
                 };
-                let new_children = vec![
+                let new_children: Vec<NodeOrToken<GreenNode, GreenToken>> = vec![
                     GreenToken::new(WHITESPACE.into(), " ").into(),
                     builder.finish().into(),
                 ];
+                if self.0.is_mutable() {
+                    // splice into the existing node, so that other handles to
+                    // this relation keep belonging to the field
+                    self.0
+                        .splice_children(idx..idx, detached_elements(new_children));
+                    return;
+                }
                 let new_root = SyntaxNode::new_root_mut(
                     self.0.green().splice_children(idx..idx, new_children),
                 );
@@ -1758,13 +1765,20 @@ impl Relation {
             } else {
                 self.0.children_with_tokens().count()
             };
-            let new_root = SyntaxNode::new_root_mut(self.0.green().splice_children(
-                idx..idx,
-                vec![
-                    GreenToken::new(WHITESPACE.into(), " ").into(),
-                    builder.finish().into(),
-                ],
-            ));
+            let new_children: Vec<NodeOrToken<GreenNode, GreenToken>> = vec![
+                GreenToken::new(WHITESPACE.into(), " ").into(),
+                builder.finish().into(),
+            ];
+            if self.0.is_mutable() {
+                // splice into the existing node, so that other handles to this
+                // relation keep belonging to the field
+                self.0
+                    .splice_children(idx..idx, detached_elements(new_children));
+                return;
+            }
+            let new_root = SyntaxNode::new_root_mut(
+                self.0.green().splice_children(idx..idx, new_children),
+            );
             if let Some(parent) = self.0.parent() {
                 parent.splice_children(self.0.index()..self.0.index() + 1, vec![new_root.into()]);
                 self.0 = parent
@@ -1826,13 +1840,20 @@ impl Relation {
             );
         } else {
             let idx = self.0.children_with_tokens().count();
-            let new_root = SyntaxNode::new_root_mut(self.0.green().splice_children(
-                idx..idx,
-                vec![
-                    GreenToken::new(WHITESPACE.into(), " ").into(),
-                    builder.finish().into(),
-                ],
-            ));
+            let new_children: Vec<NodeOrToken<GreenNode, GreenToken>> = vec![
+                GreenToken::new(WHITESPACE.into(), " ").into(),
+                builder.finish().into(),
+            ];
+            if self.0.is_mutable() {
+                // splice into the existing node, so that other handles to this
+                // relation keep belonging to the field
+                self.0
+                    .splice_children(idx..idx, detached_elements(new_children));
+                return;
+            }
+            let new_root = SyntaxNode::new_root_mut(
+                self.0.green().splice_children(idx..idx, new_children),
+            );
             if let Some(parent) = self.0.parent() {
                 parent.splice_children(self.0.index()..self.0.index() + 1, vec![new_root.into()]);
                 self.0 = parent
